@@ -34,6 +34,7 @@ def run(id, entry, NB, L, CB=0, tiers=QT, mode='SEQ', cls='shape-complete', unwi
     d.update(kw)
     return d
 Q = ['quick']; TH = ['thorough']
+CAD = ['--sat-solver', 'cadical']   # minisat2 (cbmc default) does not finish the final UNSAT call of some h_find shapes; cadical needs 3 s
 
 UNIT = dict(
   title='vyukov_hash_map iterator: find/begin/++/erase(iterator&)/reset/move_to_next_bucket/lock_bucket/move (C11), trivial storage mode',
@@ -148,7 +149,8 @@ UNIT = dict(
     # NB = buckets in the block, L = extension items available to the bucket under test, CB = index of the bucket under test
     run('lock_bucket', 'h_lock_bucket', 2, 0, CB=1), run('lock_bucket_b0', 'h_lock_bucket', 2, 0, CB=0, tiers=TH), run('lock_bucket_NB4', 'h_lock_bucket', 4, 0, CB=2, tiers=TH),
     run('lock_bucket_int', 'h_lock_bucket_int', 2, 0, mode='INT', cls='unbounded', note='retry loop cut by invariant LOCKB; the environment rewrites every bucket the caller does not hold'),
-    run('find', 'h_find', 2, 2, CB=1, tiers=Q), run('find_b0', 'h_find', 2, 2, CB=0, tiers=TH), run('find_L3', 'h_find', 2, 3, CB=1, tiers=TH), run('find_NB1', 'h_find', 1, 2, tiers=TH),
+    run('find', 'h_find', 2, 2, CB=1, tiers=Q, solver=CAD), run('find_b0', 'h_find', 2, 2, CB=0, tiers=TH, solver=CAD), run('find_L3', 'h_find', 2, 3, CB=1, tiers=TH, solver=CAD),
+    run('find_NB1', 'h_find', 1, 2, tiers=TH, solver=CAD),
     run('begin', 'h_begin', 4, 0), run('begin_NB1', 'h_begin', 1, 0, tiers=TH),
     run('next_b0', 'h_next', 2, 2, CB=0, tiers=Q), run('next_b1', 'h_next', 2, 2, CB=1, tiers=Q),
     run('next_L3_b0', 'h_next', 3, 3, CB=0, tiers=TH), run('next_L3_b1', 'h_next', 3, 3, CB=1, tiers=TH), run('next_L3_b2', 'h_next', 3, 3, CB=2, tiers=TH),
@@ -162,7 +164,7 @@ UNIT = dict(
     run('mnb_int', 'h_mnb_int', 3, 0, CB=0, mode='INT', note='lock loop cut by invariant MNB (unbounded retries); recursion over the NB buckets unwound'),
     run('mnb_int_b1', 'h_mnb_int', 3, 0, CB=1, mode='INT', tiers=TH),
     run('move_ctor', 'h_move_ctor', 2, 1), run('move_assign', 'h_move_assign', 2, 1),
-    run('traverse', 'h_traverse', 2, 1, tiers=TH, cls='bounded', unwind=12, note='whole begin/++/end traversal, at most 8 elements'),
+    run('traverse', 'h_traverse', 2, 1, tiers=TH, cls='bounded', unwind=12, flags=['--object-bits', '12'], note='whole begin/++/end traversal, at most 8 elements'),
   ],
   obligations={
     'vhm.it.find.position': dict(deciding=True, text='find(k): for a key present in its bucket (array slot or extension item) the returned iterator satisfies II (bucket locked with state == copy.locked(), index < item_count or *prev == extension with prev != null) and designates that key; for an absent key it equals end() and the bucket is unlocked and unchanged'),
